@@ -676,7 +676,7 @@ func buildJobs(c *vlib.Ctx) (jobs []Job, counts map[string]int) {
 	// depth 2, wide: a message of the sequence alphabet followed by every message of the depth-1 grammar
 	if thorough {
 		for _, cf := range configs {
-			if cf.shadow || cf.level != full {
+			if cf.shadow || cf.level != full || cf.backend == "fstree" {
 				continue
 			}
 			for _, a := range alpha {
@@ -737,6 +737,7 @@ func run(c *vlib.Ctx) {
 	c.Assume("reusing the operation ID of a still-running sub/qsub for another request is not generated (not a well-formed use of the protocol)")
 	c.Assume("the interleaving clause (concurrent requests, cancels racing queries, writes racing subscriptions) is left to engine S; here every message is run to its terminal reply before the next is sent")
 	c.Assume("scenario families: a connection that stalls on the first ok reply of a query/qsub while two other connections write (and, in one variant, for 1.5 s of real time so that the storage send timeout fires), and a stored record that does not parse (not on hashmap); there every ok/upd/new reply must carry content the record had between the start of the operation and the reply")
+	c.Assume("on storages that hand out the stored object itself (hashmap) a record deleted while it waits in the iterator buffer is delivered as ok with no content and _meta.Deleted set; accepted as the record's state at reply time")
 	c.Assume("backends: hashmap, bbolt, fstree, badger (sinkhole and injected storages are not exercised)")
 
 	jobs, counts := buildJobs(c)
